@@ -329,7 +329,15 @@ impl Monitor for C13 {
         let mut rng = Rng::new(seed);
         let scale = *rng.pick(&[3u64, 10, 40]);
         let bursty = rng.chance(1, 2);
-        let dmin = gen_dmin(&mut rng, 6, scale, bursty);
+        // every 32nd case: a long prefix (70-140 entries, e.g. recorded from bursts of that many jobs), so
+        // that the splits that determine an extension also pair two LONG parts
+        let dmin = if _index % 32 == 31 {
+            let len = rng.usize(70, 140);
+            rep.count("long_prefixes", 1);
+            crate::model::arr::gen_dmin_len(&mut rng, len, scale, bursty)
+        } else {
+            gen_dmin(&mut rng, 6, scale, bursty)
+        };
         let last = *dmin.last().unwrap();
         rep.sample = Some(jobj! {"delta_min_prefix" => &dmin});
 
@@ -525,6 +533,54 @@ impl Monitor for C13 {
                         );
                     }
                 }
+            }
+        }
+
+        // ------------------------------------------------------------ (E) one big jump
+        // The FIRST query of a fresh ExtrapolatingCurve lands thousands of entries beyond its cache. It must
+        // be answered like the closure says, like an eagerly extrapolated Curve, like a gradually warmed-up
+        // object, and consistently with the next (slightly longer) query on the same object.
+        if _index % 64 == 63 && dmin.len() >= 2 {
+            let n_target = rng.usize(4200, 5200);
+            let closed = close_superadditive(&dmin, n_target, 0, 6000);
+            let delta = closed[closed.len() - 1].saturating_sub(rng.range(0, 3)).max(1);
+            let closed = close_superadditive(&dmin, n_target + 8, delta + 3, 6200);
+            let want = (eta(&closed, delta), eta(&closed, delta + 1));
+            let r = guard(|| {
+                let q = |c: &dyn ArrivalBound, x: u64| c.number_arrivals(Duration::from(x)) as u64;
+                let fresh = arrival::ExtrapolatingCurve::new(Arr::build_curve(&dmin));
+                let a = q(&fresh, delta);
+                let b = q(&fresh, delta + 1);
+                let a2 = q(&fresh, delta);
+                let warmed = arrival::ExtrapolatingCurve::new(Arr::build_curve(&dmin));
+                for k in [16u64, 8, 4, 2] {
+                    let _ = q(&warmed, delta / k);
+                }
+                let w = (q(&warmed, delta), q(&warmed, delta + 1));
+                let mut eager = Arr::build_curve(&dmin);
+                eager.extrapolate(Duration::from(delta + 2));
+                let e = (q(&eager, delta), q(&eager, delta + 1));
+                (a, b, a2, w, e)
+            });
+            rep.count("big_jump_first_queries", 1);
+            match r {
+                Ok((a, b, a2, w, e)) => {
+                    if *closed.last().unwrap() <= delta + 1 {
+                        rep.count("big_jump_closure_too_short_for_the_oracle", 1);
+                    } else if (a, b) != want || a2 != a || w != want || e != want {
+                        rep.violation(
+                            "C13 part=big-jump kind=first-far-query-differs-from-closure-or-from-warmed-up-or-eager-object".to_string(),
+                            jobj! {"prefix"=>&dmin,"delta"=>delta,"closure_[eta(delta),eta(delta+1)]"=>vec![want.0, want.1],
+                            "fresh_first_query(delta)"=>a,"then(delta+1)"=>b,"then(delta)_again"=>a2,
+                            "gradually_warmed_up_[delta,delta+1]"=>vec![w.0, w.1],"eagerly_extrapolated_curve_[delta,delta+1]"=>vec![e.0, e.1],
+                            "entries_needed"=>n_target},
+                        );
+                    }
+                }
+                Err(c) => rep.violation(
+                    format!("C13 part=big-jump kind={} class={}", c.kind, c.class()),
+                    jobj! {"prefix"=>&dmin,"delta"=>delta,"caught"=>c.to_json()},
+                ),
             }
         }
 
